@@ -25,6 +25,8 @@ def _range_unwind(n):
     return {'%s.%d' % (f, k): n for f in RANGE_LOOPS for k in (0, 1)}
 
 
+BUILD = '_ZN8dispenso6detail28buildGroupsFromCacheTopologyERKSt6vectorINS_10CacheGroupESaIS2_EES6_i'
+
 INSTANCES = [
     {'name': 'algebra_point', 'src': 'algebra.cpp', 'engine': 'cbmc', 'repo_sources': ['dispenso/cpu_set.cpp'],
      'defs': {'VF_OPS': 1, 'VF_OPMASK': 5, 'VF_COUNT': 1}, 'unwind': 18, 'unwindset': _range_unwind(1), 'timeout': 900,
@@ -48,4 +50,7 @@ INSTANCES = [
     {'name': 'groups', 'src': 'groups.cpp', 'engine': 'cbmc', 'repo_sources': ['dispenso/cpu_set.cpp'],
      'defs': {'VF_NL2': 2, 'VF_NCPU': 4}, 'unwind': 6, 'timeout': 900, 'tiers': ['experimental'],
      'bounds': '<= 2 L2 groups x <= 2 cpus, <= 2 L3 groups'},
+    {'name': 'topo_dev', 'src': 'topo.cpp', 'engine': 'cbmc', 'repo_sources': ['dispenso/cpu_set.cpp'],
+     'defs': {'VF_S0': 2, 'VF_S1': 2, 'VF_S2': 0}, 'unwind': 8, 'unwind_fn': {BUILD: 20, 'vf_memset': 33}, 'rt_extra': ['harness/C43/topo_rt.c'], 'timeout': 200, 'tiers': ['dev'], 'mem_gb': 10,
+     'bounds': 'dev'},
 ]
